@@ -114,6 +114,8 @@ class MapV:
 class RangeV:
     lo: Lin
     hi: Lin
+    step: int = 1
+    count: Optional[int] = None      # number of elements when lo/hi are symbolic but the count is known
 
 
 @dataclass
@@ -259,7 +261,7 @@ def subst_value(v: Any, old: Sym, new: Sym) -> Any:
                      [(subst_value(i, old, new), subst_value(x, old, new), b) for i, x, b in v.stores],
                      subst_value(v.alloc_len, old, new) if v.alloc_len is not None else None, v.alloc_elem)
     if isinstance(v, RangeV):
-        return RangeV(subst_lin(v.lo, old, new), subst_lin(v.hi, old, new))
+        return RangeV(subst_lin(v.lo, old, new), subst_lin(v.hi, old, new), v.step, v.count)
     if isinstance(v, GenericList):
         return GenericList(v.name, subst_value(v.at, old, new) if v.at is not None else None,
                            subst_value(v.elem, old, new), subst_value(v.length, old, new) if v.length is not None else None)
@@ -601,7 +603,7 @@ class Interp:
 
     def exec_for(self, st: ast.For, state: State, rel: str):
         it = self.eval(st.iter, state, rel)
-        if isinstance(it, RangeV) and it.lo.is_const() and it.hi.is_const() and it.hi.const - it.lo.const > 1 \
+        if isinstance(it, RangeV) and it.count is None and it.lo.is_const() and it.hi.is_const() and it.hi.const - it.lo.const > 1 \
                 and it.hi.const - it.lo.const > self.unroll_ranges:
             items = None
         else:
@@ -686,6 +688,10 @@ class Interp:
                 v.unknown = why
 
     def concrete_items(self, it: Any) -> Optional[List[Any]]:
+        if isinstance(it, RangeV) and it.count is not None:
+            if it.count <= min(self.UNROLL, max(1, self.unroll_ranges)):
+                return [it.lo + it.step * i for i in range(it.count)]
+            return None
         if isinstance(it, RangeV):
             if it.lo.is_const() and it.hi.is_const():
                 n = it.hi.const - it.lo.const
@@ -706,6 +712,11 @@ class Interp:
         return None
 
     def families(self, it: Any) -> Optional[List[Tuple[Any, List[Tuple[Sym, int]]]]]:
+        if isinstance(it, RangeV) and it.count is not None:
+            if it.count <= 0:
+                return []
+            b = Sym(f"i{next(self.fresh)}", 0, it.count - 1)
+            return [(it.lo + Lin.of(b).scale(it.step), [(b, it.count)])]
         if isinstance(it, RangeV):
             if it.lo.is_const() and it.hi.is_const():
                 n = it.hi.const - it.lo.const
@@ -968,7 +979,7 @@ class Interp:
         it = self.eval(g.iter, state, rel)
         out = ListV([])
         items = None
-        if not (isinstance(it, RangeV) and it.lo.is_const() and it.hi.is_const() and it.hi.const - it.lo.const > max(1, self.unroll_ranges)):
+        if not (isinstance(it, RangeV) and it.count is None and it.lo.is_const() and it.hi.is_const() and it.hi.const - it.lo.const > max(1, self.unroll_ranges)):
             items = self.concrete_items(it)
         saved = {n.id: state.env.get(n.id, _MISSING) for n in ast.walk(g.target) if isinstance(n, ast.Name)}
         try:
@@ -1009,7 +1020,7 @@ class Interp:
             g = e.generators[gi]
             it = self.eval(g.iter, state, rel)
             items = None
-            if not (isinstance(it, RangeV) and it.lo.is_const() and it.hi.is_const() and it.hi.const - it.lo.const > max(1, self.unroll_ranges)):
+            if not (isinstance(it, RangeV) and it.count is None and it.lo.is_const() and it.hi.is_const() and it.hi.const - it.lo.const > max(1, self.unroll_ranges)):
                 items = self.concrete_items(it)
             if items is not None:
                 for item in items:
@@ -1176,6 +1187,11 @@ class Interp:
                 return band(l, r.const)
             if l.is_const() and l.const >= 0:
                 return band(r, l.const)
+            # x & ~m  ==  x - (x & m)   for a non-negative mask m (Python's infinite two's complement)
+            if r.is_const() and r.const < 0:
+                return l - band(l, -r.const - 1)
+            if l.is_const() and l.const < 0:
+                return r - band(r, -l.const - 1)
             return Unknown("& of two symbolic values")
         if isinstance(op, ast.BitOr):
             v, problem = bor(l, r)
@@ -1185,6 +1201,14 @@ class Interp:
         if isinstance(op, ast.BitXor):
             if l.is_const() and r.is_const():
                 return Lin(l.const ^ r.const)
+            # x ^ (x & (2**k - 1))  ==  x - (x & (2**k - 1)) : clearing the low k bits
+            for a, b in ((l, r), (r, l)):
+                _, hi = b.rng()
+                lo_b, _ = b.rng()
+                if hi is not None and lo_b is not None and lo_b >= 0:
+                    for k in range(hi.bit_length(), hi.bit_length() + 2):
+                        if mod(a, 1 << k) == b:
+                            return a - b
             return Unknown("xor")
         if isinstance(op, ast.Div):
             return FloatV(("Div", ("int", l), ("int", r)))
@@ -1458,7 +1482,15 @@ class Interp:
                     return RangeV(Lin(0), args[0])
                 if len(args) == 2:
                     return RangeV(args[0], args[1])
+                if len(args) == 3 and args[2].is_const() and args[2].const > 0:
+                    span = args[1] - args[0]
+                    if span.is_const():
+                        n = max(0, -(-span.const // args[2].const))
+                        return RangeV(args[0], args[1], args[2].const, n)
             return Unknown("range")
+        if name == "list" and len(args) == 1 and isinstance(args[0], RangeV) and args[0].count is not None:
+            fams = self.families(args[0])
+            return ListV([Seg(el, tuple(bs)) for el, bs in fams])
         if name == "list" and len(args) == 1:
             a = args[0]
             if isinstance(a, RangeV) and a.lo.is_const() and a.hi.is_const():
